@@ -502,3 +502,19 @@ def generate(outdir, tier, seed):
             seen.add(t.cpp)
             uniq.append(t)
     return emit_tus(outdir, uniq)
+
+
+def handle_corpus():
+    """handle-bearing types for the C15 transfer check (every nesting position named by the property)"""
+    P = prim
+    C = [handle(), handle("A"), handle("B"), vec(handle()), opt(handle()), arr(handle(), 3), pair(handle(), handle("A")), var(handle(), P("string")), mp(P("u8"), handle()),
+         struct([Member(handle()), Member(P("string")), Member(vec(handle())), Member(opt(handle("B")))], "SHnd2"),
+         table([(handle(), 1, True), (P("int"), 2, True), (vec(handle()), 3, True), (handle("A"), 4, False)], "THnd2", ("hash", 5)),
+         table([(P("string"), 1, True), (table([(handle(), 7, True), (opt(handle()), 8, True)], "THndInner", ("hash", 9)), 2, True), (var(handle("A"), P("u8")), 3, True)], "THndOuter", ("ns", "verif.THndOuter")),
+         vec(struct([Member(handle()), Member(P("u16"))], "SHndSmall")), struct([LBuf(handle(), 4, P("u8"))], "LBHnd")]
+    return C
+
+
+def generate_handles(outdir):
+    _counter[0] = 1000
+    return emit_tus(outdir, handle_corpus(), per_tu=5, prefix="htypes")
